@@ -132,6 +132,17 @@ def make_case(args):
     obj = da.to_dataset(name="efth") if rng.random() < 0.25 else da
     sp = obj.spec
     impl = {}
+    if rng.random() < 0.25:
+        # the same object first held another spectrum (peak elsewhere) and was asked for its peak statistics; the values
+        # were then overwritten in place: the statistics below must be those of the spectrum held now
+        real = np.array(da.values, copy=True)
+        try:
+            da.values[...] = np.flip(real, axis=da.get_axis_num("freq")) * 0.5
+            for nm in ("tp", "fp", "alpha", "gamma", "tm01") + (() if oned else ("dpm", "dpspr", "dp")):
+                getattr(sp, nm)()
+        except Exception:
+            pass
+        da.values[...] = real
     try:
         impl["tpS"] = sp.tp(smooth=True)
         impl["tpD"] = sp.tp(smooth=False)
